@@ -93,6 +93,16 @@ CHECKS = {
          'All 601 TLC-enumerated files with 0-2 directives of every flag combination (> | + / !, with/without label and instruction) on one instruction x modes; 130 (quick) / 1000 (thorough) TLC-simulated files x 12 skool2bin / 9 skool2asm modes x 6 / 18 base/case/-c option vectors; random all-instruction-form files (expressions, binary and character literals, all bases, address-valued operands, @label/@keep/@nowarn/@equ) x 4 modes x 18 vectors; #PEEK in ASM and HTML output against skool2bin --data.',
          'Single instructions of the skool2asm output are assembled by skoolkit\'s own Assembler (trusted via C02) inside a reference resolver for ORG/EQU/labels; cases where the documentation leaves the tools free (an @org that is not first in an entry, operands naming an unlabelled instruction that moved, | after an unplaced instruction ...) are counted, not judged; three documented usages fail the #PEEK clause and are open findings.',
          'DESIGN.md §4 C04'),
+ 'C03': ('model_checking',
+         'TLA+ state machine of the annotated disassembly document (CtlDoc, well-formedness model-checked) generates documents by TLC -simulate and an exhaustive small-scope -dump; each is round-tripped through the real sna2skool/skool2ctl, and TLC (CtlDocCases) projects skool A, ctl1 and skool B to items and decides item equality, A==B and the ctl2==ctl1 fixed point',
+         'Generated documents (all entry and sub-block types, statement lengths and bases, title/D/R/N/E paragraphs, instruction comments incl. blank, dots-only, braces and dot+colon lines, M groups, every ASM directive kind, @ignoreua t/d/r/m/i/e, > header/footer) x sna2skool -H/-l/-w x skool2ctl -b [-k] [-h|-l] x with/without -e, plus every document of one b/c entry with up to three one-statement sub-blocks and one instruction/M/N comment (1912 quick / 3592 thorough, enumerated by TLC); TLC judges DocOfSkool(A)=DocOfCtl(ctl1)=DocOfSkool(B), textual A=B and ctl2=ctl1, naming the first lost, added or changed item.',
+         'Not generated: L loops, the M repeat flag, ASM block directives inside non-entry blocks, statements inside i blocks, #TABLE/#LIST; brace order restricted to every { before every } (the opposite order is an open C18 finding); without -k only documents without dot/colon lines are claimed to round-trip textually; line lexing is done in the harness; memory is synthesised from the document so that every requested base is renderable.',
+         'DESIGN.md §4 C03'),
+ 'C20': ('model_checking',
+         'TLA+ RZX protocol specification (recorder + player over Z80!Step, stop/write/resume at every frame) model-checked; TLC judges real rzxplay/rzxinfo runs on recordings made by an independent recorder, and validates --trace output step by step against the player\'s counters',
+         'Rzx is model-checked for no desync, boundary and final agreement and stop-file faithfulness over programs x frame plans x conventions x flags x every stop point. Generated programs (IN loops, HALT, EI/DI, IM 1/2, 48K and 128K paging through partially decoded ports, AY) recorded on the real simulators into 1-3-block RZX files ({z80 v1/v3, szx} snapshots, compressed or not) are played by rzxplay.main under {C,--python} x {plain,--cmio} x flags 0..7, stopped at every frame, written and resumed, reported by rzxinfo --frames, and judged by TLC against the recorder\'s states and frames.',
+         'Programs and frame plans are sampled; claims are made only where the flags match the recording convention (the rest is counted as drift); T-states are not compared; rzxinfo is checked for the <=10 readings it prints; zlib and the C09 snapshot decoder are trusted projections; self-modifying recordings whose instruction class changes get no claim.',
+         'DESIGN.md §4 C20'),
 }
 
 PENDING = {}
